@@ -52,7 +52,8 @@ EvalC(c, ctx) ==
 
 (* ------------------------------ continuations ------------------------------
    A continuation is the sequence of statements still to execute; <<"loop", w>> marks the end of
-   the body of the while statement w (re-test the condition).                                  *)
+   the body of the while statement w (re-test the condition), <<"ret", f>> the end of the body of
+   a called subflow f (no effect; it only tells how deep in subflow calls the flow is blocked). *)
 RECURSIVE AfterLoop(_), ToLoop(_)
 AfterLoop(k) == IF Len(k) = 0 THEN k ELSE IF Head(k)[1] = "loop" THEN Tail(k) ELSE AfterLoop(Tail(k))
 ToLoop(k)    == IF Len(k) = 0 THEN k ELSE IF Head(k)[1] = "loop" THEN k ELSE ToLoop(Tail(k))
@@ -87,7 +88,8 @@ Run(P, k, ctx, fuel) ==
             [] t = "loop"  -> Run(P, << s[2] >> \o rest, ctx, fuel - 1)
             [] t = "break" -> Run(P, AfterLoop(rest), ctx, fuel - 1)
             [] t = "continue" -> Run(P, ToLoop(rest), ctx, fuel - 1)
-            [] t = "do"    -> Run(P, P.flows[s[2]].body \o rest, ctx, fuel - 1)
+            [] t = "do"    -> Run(P, P.flows[s[2]].body \o << <<"ret", s[2]>> >> \o rest, ctx, fuel - 1)
+            [] t = "ret"   -> Run(P, rest, ctx, fuel - 1)
 
 Left(ctx) == Res(<<>>, ctx, "L", "")       \* the event does not continue the flow
 
@@ -135,6 +137,18 @@ Fold(P, h, n, k, ctx, mode) ==
           THEN << <<"-", "">> >> \o Fold(P, h, n + 1, k, ctx, "start")
           ELSE << Expect(r) >> \o Fold(P, h, n + 1, r.k, r.ctx, IF Follows(r) THEN "follow" ELSE "off")
 Expected(P, h) == Fold(P, h, 1, <<>>, Ctx0, "start")
+
+(* the configuration after the first n events of h, and how many subflow calls are open there
+   (reported with a rejected case as a classifier of the situation, not used for the verdict)   *)
+RECURSIVE Conf(_, _, _, _, _, _)
+Conf(P, h, n, k, ctx, mode) ==
+  IF n > Len(h) \/ mode = "off" THEN [k |-> k, mode |-> mode]
+  ELSE LET r == IF mode = "start" THEN Start(P, h[n]) ELSE Step(P, k, ctx, h[n])
+       IN IF mode = "start" /\ r.dec[1] = "L" THEN Conf(P, h, n + 1, k, ctx, "start")
+          ELSE Conf(P, h, n + 1, r.k, r.ctx, IF Follows(r) THEN "follow" ELSE "off")
+RECURSIVE CountRet(_)
+CountRet(k) == IF Len(k) = 0 THEN 0 ELSE (IF Head(k)[1] = "ret" THEN 1 ELSE 0) + CountRet(Tail(k))
+SubflowDepth(P, h) == CountRet(Conf(P, h, 1, <<>>, Ctx0, "start").k)
 
 (* an observed decision sequence agrees with the property on history h; <<"?", "">> = not observed *)
 FirstBad(P, h, obs) ==
